@@ -177,16 +177,17 @@ func (m *c14Member) Random() kyber.XOF {
 // ---------------------------------------------------------------- scenarios
 
 type c14Party struct {
-	t       *c14Tree
-	branch  int                     // claimed scope
-	sec     map[string]kyber.Scalar // secrets actually given to the prover
-	role    string
-	honest  bool // ground truth: claimed branch evaluates true under sec
-	absent  bool
-	verify  []bool // verify[j]: run a verifier for j
-	vroot   []*c14Node
-	vpts    []map[string]kyber.Point
-	wrongSt []string // non-empty: the verifier for j is built for another statement
+	t          *c14Tree
+	branch     int                     // claimed scope
+	sec        map[string]kyber.Scalar // secrets actually given to the prover
+	role       string
+	honest     bool // ground truth: claimed branch evaluates true under sec
+	absent     bool
+	verify     []bool // verify[j]: run a verifier for j
+	vroot      []*c14Node
+	vpts       []map[string]kyber.Point
+	wrongSt    []string // non-empty: the verifier for j is built for another statement
+	selfVerify bool     // a verifier for the participant's own slot is handed to DeniableProver
 }
 
 type c14Transit struct {
@@ -356,6 +357,7 @@ func c14DenRun(r *mon.R, env *c14Env, idx int) {
 		p.vroot = make([]*c14Node, k)
 		p.vpts = make([]map[string]kyber.Point, k)
 		p.wrongSt = make([]string, k)
+		p.selfVerify = (kind == "honest" || kind == "cheaters" || kind == "mixed") && rng.IntN(2) == 0
 		for j, q := range parties {
 			if j == i {
 				continue
@@ -551,6 +553,10 @@ func c14DenRun(r *mon.R, env *c14Env, idx int) {
 				}
 			}
 		}
+		if p.selfVerify {
+			vp, _ := c14Build(p.t.root, nil)
+			vrfs[i] = vp.Verifier(suite, c14CopyPoints(g, p.t.pts))
+		}
 		if fault.hits(i) && fault.kind == "prover-error" {
 			prover = c14FailingProver(prover, fault.variant)
 		}
@@ -726,6 +732,18 @@ wait:
 				d["participant"] = i
 				r.Violation(key("complete/own-slot-error"), "an honest prover's own result slot carries an error: "+errs[i].Error(), d)
 			}
+		}
+		if p.selfVerify && !p.honest {
+			// the participant checks its own proof too: a cheater's own slot must not read "accepted"
+			r.Eval("deniable/"+kind+"/sound/self-verified-cheater", fmt.Sprintf("%s|%d|%d", env.name, idx, i), true)
+			if errs[i] == nil {
+				d := descr()
+				d["participant"] = i
+				r.Violation(key("sound/self-verified-cheater/accepted"), "a participant whose secrets do not satisfy its claimed branch and who verifies its own slot reports nil for itself", d)
+			}
+		}
+		if p.selfVerify {
+			r.NoteAdd(c14DP+"participants-verifying-their-own-slot", 1)
 		}
 		for j, q := range parties {
 			if j == i || !p.verify[j] {
